@@ -206,6 +206,22 @@ func (c *checker) CheckFunctions(t *parser.Thrift) (warns []string, err error) {
 				err = fmt.Errorf("[IDL grammar error] %s.%s: oneway methods can't throw exceptions from file %s", svc.Name, f.Name, t.Filename)
 				return
 			}
+			for _, fields := range [][]*parser.Field{f.Arguments, f.Throws} {
+				fieldIDs := make(map[int32]bool)
+				names := make(map[string]bool)
+				for _, a := range fields {
+					if fieldIDs[a.ID] {
+						err = fmt.Errorf("[IDL grammar error] duplicated field ID %d in %s.%s from file %s", a.ID, svc.Name, f.Name, t.Filename)
+						return
+					}
+					if names[a.Name] {
+						err = fmt.Errorf("[IDL grammar error] duplicated field name %q in %s.%s from file %s", a.Name, svc.Name, f.Name, t.Filename)
+						return
+					}
+					fieldIDs[a.ID] = true
+					names[a.Name] = true
+				}
+			}
 			for _, a := range f.Arguments {
 				if a.Requiredness == parser.FieldType_Optional {
 					argOpt = t.Filename + ": optional keyword is ignored in argument lists."
